@@ -751,10 +751,26 @@ impl World<'_> {
                         }
                     }};
                 }
-                if *is_err {
-                    drive!(std::io::stderr());
-                } else {
-                    drive!(std::io::stdout());
+                // modes 3 and 4: the stream is built over an already locked handle
+                // (`AutoStream::never(std::io::stdout().lock())`), no `.lock()` conversion
+                macro_rules! drive_locked {
+                    ($guard:expr) => {{
+                        let mut s = if *mode == 3 { AutoStream::never($guard) } else { AutoStream::always_ansi($guard) };
+                        modes.0 = s.current_choice();
+                        modes.1 = modes.0;
+                        for c in all.iter() {
+                            if let Err(e) = s.write_all(c) {
+                                io_err = Some(e);
+                            }
+                        }
+                        let _ = s.flush();
+                    }};
+                }
+                match (*is_err, *mode >= 3) {
+                    (true, false) => drive!(std::io::stderr()),
+                    (false, false) => drive!(std::io::stdout()),
+                    (true, true) => drive_locked!(std::io::stderr().lock()),
+                    (false, true) => drive_locked!(std::io::stdout().lock()),
                 }
                 let got = fds.disk_tail(before);
                 // whatever the stream under test failed to flush must not leak into later probes
@@ -782,8 +798,8 @@ impl World<'_> {
                     });
                 }
                 let expected_mode = match mode {
-                    0 => Some(ColorChoice::Never),
-                    1 => Some(ColorChoice::AlwaysAnsi),
+                    0 | 3 => Some(ColorChoice::Never),
+                    1 | 4 => Some(ColorChoice::AlwaysAnsi),
                     _ => None,
                 };
                 if let Some(m) = expected_mode {
@@ -940,7 +956,7 @@ pub fn gen_history(rng: &mut Rng, mode: &str) -> Vec<EOp> {
             if rng.chance(1, 3) {
                 let lens = gen::cuts(rng, &wl, false);
                 let lock_at = if rng.chance(1, 2) { Some(rng.below(lens.len() + 1)) } else { None };
-                ops.push(EOp::StdWrite(rng.chance(1, 2), rng.below(3) as u8, wl.bytes, lock_at, lens));
+                ops.push(EOp::StdWrite(rng.chance(1, 2), rng.below(5) as u8, wl.bytes, lock_at, lens));
             } else if rng.chance(1, 2) {
                 ops.push(EOp::Adapted(sk, wl.bytes));
             } else {
